@@ -56,7 +56,7 @@ def _key(prop, verdict, ctx):
 def c02(pid, tier, seed, scratch):
     bindir = C.build()
     X.ensure_shim()
-    n_hist, ops, limit = (6, 12, 220) if tier == "quick" else (40, 30, None)
+    n_hist, ops, limit = (7, 12, 220) if tier == "quick" else (41, 30, None)
     rep = _report("crash-images[process-crash]", seed,
                   "histories of create/put (text, chunked text, binary incl. log-growing sizes)/update/delete/commit/apply_ticket/vacuum/reopen run under the "
                   "LD_PRELOAD recorder; the state after every mutating file-system call (completed calls persist) is an image; each distinct image is opened "
@@ -71,15 +71,20 @@ def c02(pid, tier, seed, scratch):
         hseed = seed * 1000 + h
         # the last history of a run uses small incompressible records and frequent commits so that the log wraps
         wrap = h == n_hist - 1
+        # the one before it is steered so that a pending record ends in the last 48 bytes of the log region (no room for a sentinel)
+        edge = h == n_hist - 2
+        profile, ops_h = ("wrap", 40) if wrap else ("edge", 40) if edge else ("crash", ops)
         try:
-            rec = X.record(bindir, hseed, 40 if wrap else ops, wd, profile="wrap" if wrap else "crash")
+            rec = X.record(bindir, hseed, ops_h, wd, profile=profile)
         except C.Inconclusive as e:
             rep["inconclusive"].append({"case": f"history {hseed}", "reason": str(e)[:300]})
             continue
         _count(rep, "histories")
         _count(rep, "log_wraps_in_histories", X.count_wraps(rec["states"]))
         _count(rep, "log_growths_in_histories", X.count_growths(rec["states"]))
-        imgs = X.process_crash_images(rec, limit=(min(limit, 120) if (limit and wrap) else limit), rng=rng)
+        if edge:
+            _count(rep, "records_steered_to_end_in_last_48_bytes_of_log_region", len(rec.get("edge_ops", [])))
+        imgs = X.process_crash_images(rec, limit=(min(limit, 120) if (limit and (wrap or edge)) else limit), rng=rng, keep_ops={o for e in rec.get("edge_ops", []) for o in (e, e + 1)})
         obs = X.probe(bindir, [i["bytes"] for i in imgs], os.path.join(wd, "probe"))
         for img, o in zip(imgs, obs):
             rep["evaluations"] += 1
@@ -99,7 +104,7 @@ def c02(pid, tier, seed, scratch):
                 rep["inconclusive"].append({"case": f"history {hseed} event {img['k']}", "reason": "probe watchdog"})
                 continue
             _violation(rep, _key("C02", verdict, ctx), f"history seed {hseed}, after event {img['k']} ({img['event']}): {verdict[1]}",
-                       {"mode": "crash", "property": "C02", "seed": hseed, "ops": 40 if wrap else ops, "profile": "wrap" if wrap else "crash", "event_index": img["k"], "ctx": ctx, "image_len": len(img["bytes"])})
+                       {"mode": "crash", "property": "C02", "seed": hseed, "ops": ops_h, "profile": profile, "event_index": img["k"], "ctx": ctx, "image_len": len(img["bytes"])})
         if len(rep["samples"]) < 2 and imgs:
             i = imgs[len(imgs) // 2]
             rep["samples"].append({"history_seed": hseed, "operations": [s["op"] for s in rec["states"]], "images": len(imgs), "example_crash_point": {"event": i["k"], "ctx": i["ctx"], "image_bytes": len(i["bytes"])}})
